@@ -122,8 +122,10 @@ type world struct {
 	col *otelcol.Collector
 	log []Event
 
-	retrieves    int // number of Provider.Retrieve calls; generation of the config = retrieves-1
-	provShutdown int
+	retrieves    int            // number of Provider.Retrieve calls; generation of the config = retrieves-1
+	provShutdown map[string]int // provider scheme -> Shutdown calls
+	retrieved    map[string]int // "scheme/gN" -> values handed out
+	closes       map[string]int // "scheme/gN" -> Close calls on that value
 	watchers     map[int]confmap.WatcherFunc
 	hosts        map[string]component.Host // "g/id" -> host handed to Start
 	syncFatal    atomic.Int32              // FatalError reports made by components from inside their own Start/Shutdown
@@ -133,6 +135,7 @@ type world struct {
 
 func newWorld(s *Script) *world {
 	return &world{s: s, watchers: map[int]confmap.WatcherFunc{}, hosts: map[string]component.Host{},
+		provShutdown: map[string]int{}, retrieved: map[string]int{}, closes: map[string]int{},
 		paused: make(chan *pausePoint), abandoned: make(chan struct{})}
 }
 
@@ -161,10 +164,31 @@ func (w *world) numRetrieves() int {
 	return w.retrieves
 }
 
+// numProvShutdown: the largest number of Shutdown calls any provider has seen (> 0: the final shutdown is under way).
 func (w *world) numProvShutdown() int {
 	w.mu.Lock()
 	defer w.mu.Unlock()
-	return w.provShutdown
+	n := 0
+	for _, v := range w.provShutdown {
+		if v > n {
+			n = v
+		}
+	}
+	return n
+}
+
+// provLedger returns copies of the provider-shutdown, retrieved-value and close ledgers.
+func (w *world) provLedger() (shut, retrieved, closes map[string]int) {
+	w.mu.Lock()
+	defer w.mu.Unlock()
+	cp := func(m map[string]int) map[string]int {
+		o := map[string]int{}
+		for k, v := range m {
+			o[k] = v
+		}
+		return o
+	}
+	return cp(w.provShutdown), cp(w.retrieved), cp(w.closes)
 }
 
 // loopEntered: something has been logged while the collector was Closing, which
@@ -340,12 +364,49 @@ func (g *Gen) yaml(n int) string {
 // confmap provider
 // ---------------------------------------------------------------------------
 
-type provider struct{ w *world }
+// Two providers are registered: "vt" serves the whole configuration of generation n on its n-th Retrieve and
+// owns the watcher the driver uses; "vx" contributes an (empty) second source, so that "each provider is shut
+// down exactly once" is decided per provider.  Every Retrieved value carries a CloseFunc that is booked in the
+// ledger and, per script, fails.
+const (
+	mainScheme = "vt"
+	auxScheme  = "vx"
+)
 
-func (p *provider) Scheme() string { return "vt" }
+var schemes = []string{mainScheme, auxScheme}
+
+type provider struct {
+	w      *world
+	scheme string
+}
+
+func (p *provider) Scheme() string { return p.scheme }
+
+// closer books the Close of the value retrieved by scheme for generation n; it fails when the script says so.
+func (w *world) closer(scheme string, n int) confmap.RetrievedOption {
+	fail := w.s.gen(n).CloseFail&map[string]int{mainScheme: 1, auxScheme: 2}[scheme] != 0
+	return confmap.WithRetrievedClose(func(context.Context) error {
+		w.mu.Lock()
+		w.closes[fmt.Sprintf("%s/g%d", scheme, n)]++
+		w.mu.Unlock()
+		w.add(n, scheme, "close", fail)
+		if fail {
+			return errors.New(token("close", n, scheme))
+		}
+		return nil
+	})
+}
 
 func (p *provider) Retrieve(_ context.Context, _ string, watcher confmap.WatcherFunc) (*confmap.Retrieved, error) {
 	w := p.w
+	if p.scheme == auxScheme {
+		w.mu.Lock()
+		n := w.retrieves - 1 // the main source is resolved first
+		w.retrieved[fmt.Sprintf("%s/g%d", auxScheme, n)]++
+		w.mu.Unlock()
+		w.add(n, auxScheme, "retrieve-aux", false)
+		return confmap.NewRetrieved(map[string]any{}, w.closer(auxScheme, n))
+	}
 	w.mu.Lock()
 	n := w.retrieves
 	w.retrieves++
@@ -355,11 +416,11 @@ func (p *provider) Retrieve(_ context.Context, _ string, watcher confmap.Watcher
 		w.add(n, "", "retrieve", true)
 		return nil, errors.New(token("retrieve", n, "provider"))
 	}
+	w.mu.Lock()
+	w.retrieved[fmt.Sprintf("%s/g%d", mainScheme, n)]++
+	w.mu.Unlock()
 	w.add(n, "", "retrieve", false)
-	closer := confmap.WithRetrievedClose(func(context.Context) error {
-		w.add(n, "", "close", false)
-		return nil
-	})
+	closer := w.closer(mainScheme, n)
 	if g.Kind == "bad-yaml" {
 		return confmap.NewRetrievedFromYAML([]byte("receivers: [unterminated\n  - {"), closer)
 	}
@@ -372,10 +433,10 @@ func (p *provider) Retrieve(_ context.Context, _ string, watcher confmap.Watcher
 func (p *provider) Shutdown(context.Context) error {
 	w := p.w
 	w.mu.Lock()
-	w.provShutdown++
+	w.provShutdown[p.scheme]++
 	n := w.retrieves - 1
 	w.mu.Unlock()
-	w.add(n, "", "prov-shutdown", false)
+	w.add(n, p.scheme, "prov-shutdown", false)
 	return nil
 }
 
@@ -548,10 +609,11 @@ func (w *world) newCollector() (*otelcol.Collector, error) {
 		SkipSettingGRPCLogger:   true,
 		LoggingOptions:          nopLogging(),
 		ConfigProviderSettings: otelcol.ConfigProviderSettings{ResolverSettings: confmap.ResolverSettings{
-			URIs: []string{"vt:gen"},
-			ProviderFactories: []confmap.ProviderFactory{confmap.NewProviderFactory(func(confmap.ProviderSettings) confmap.Provider {
-				return &provider{w: w}
-			})},
+			URIs: []string{mainScheme + ":gen", auxScheme + ":aux"},
+			ProviderFactories: []confmap.ProviderFactory{
+				confmap.NewProviderFactory(func(confmap.ProviderSettings) confmap.Provider { return &provider{w: w, scheme: mainScheme} }),
+				confmap.NewProviderFactory(func(confmap.ProviderSettings) confmap.Provider { return &provider{w: w, scheme: auxScheme} }),
+			},
 		}},
 	})
 	if err != nil {
